@@ -686,6 +686,8 @@ def _nodes(node, kinds, acc):
     elif k == 'frac': _nodes(node[1], kinds, acc); _nodes(node[2], kinds, acc)
     elif k == 'expr':
         for _, t in node[2]: _nodes(t, kinds, acc)
+    elif k == 'stack':      # v1 only (c19v1)
+        for e in node[1]: _nodes(e, kinds, acc)
     return acc
 
 
@@ -701,6 +703,8 @@ def _replace(node, old, new):
     if k == 'term': return ('term', [R(f) for f in node[1]])
     if k == 'frac': return ('frac', R(node[1]), R(node[2]))
     if k == 'expr': return ('expr', node[1], [(sub, R(t)) for sub, t in node[2]])
+    if k == 'stack': return ('stack', [R(e) for e in node[1]], node[2])
+    return node     # leaves of the v1 length grammar (c19v1): dirac, cnum, arg
 
 
 def violate(ast, rng, ctx):
